@@ -7,6 +7,8 @@
 (*   rflags = _flags of the decoded object, rtoks = tokens _unpack read, dec = its  *)
 (*            fields                                                                *)
 (*   fractional = some time was given as a non-integer (attrs holds its int part)   *)
+(*   aborted = "" | "pack" | "unpack": the call raised or did not stop (the record    *)
+(*            then holds whatever state the objects were left in)                     *)
 (* Two steps per trace (the two critical sections); the design spec's clause        *)
 (* operators and its whole-set encoding PackTokens judge them.  Total.              *)
 EXTENDS SftpAttr, Json, IOUtils, TLCExt
@@ -24,6 +26,7 @@ TPack == /\ l = 1
          /\ flags' = R.flags /\ wire' = R.wtoks
          /\ bad' = PackClauses(attrs, R.flags)
                    \cup (IF R.wtoks = PackTokens(attrs) THEN {} ELSE {"C_wire_tokens"})
+                   \cup (IF R.aborted = "pack" THEN {"P_encode_failed"} ELSE {})
          /\ pc' = "UnpackFlags" /\ l' = 2
          /\ UNCHANGED <<tid, attrs, rpos, rflags, dec>>
 
@@ -34,6 +37,7 @@ TUnpack == /\ l = 2
            /\ bad' = bad \cup (IF R.fractional /\ "P_times" \in Clauses
                                THEN (Clauses \ {"P_times"}) \cup {"C_fractional_time_not_truncated"} ELSE Clauses)
                          \cup (IF R.rtoks = wire THEN {} ELSE {"C_reader_tokens"})
+                         \cup (IF R.aborted = "unpack" THEN {"P_decode_failed"} ELSE {})
            /\ pc' = "done" /\ l' = 3
            /\ UNCHANGED <<tid, attrs, flags, wire>>
 
